@@ -166,7 +166,14 @@ func vkC06Reply(cs vkSrvCase, path vkPath, raw []byte, decodable bool, r vkResul
 			sent[o] = true
 		}
 		sentCookie := sent["cookie8"] || sent["cookie24"] || sent["cookie7"] || sent["cookie41"] || sent["cookie8b"]
-		for _, o := range opt.Option {
+		// the options of EVERY OPT record the reply carries (IsEdns0 only shows the last one)
+		var allOptions []dns.EDNS0
+		for _, rr := range m.Extra {
+			if o, ok := rr.(*dns.OPT); ok {
+				allOptions = append(allOptions, o.Option...)
+			}
+		}
+		for _, o := range allOptions {
 			switch o.Option() {
 			case dns.EDNS0SUBNET:
 				return "reply carries a client-subnet option: " + m.String(), ""
